@@ -243,31 +243,60 @@ fn simpler_op(op: &SOp) -> Vec<SOp> {
     out
 }
 
-/// All single-step reductions of a plan list, most aggressive first.
-fn reductions(plans: &[SPlan]) -> Vec<Vec<SPlan>> {
-    let mut out = Vec::new();
+/// Tries the single-step reductions of a plan list one at a time, most aggressive
+/// first; returns the first one `accept` takes. Candidates are built lazily: a
+/// history can be thousands of plans long, so they must not all exist at once.
+fn reduce_once(plans: &[SPlan], accept: &mut dyn FnMut(&[SPlan]) -> bool) -> Option<Vec<SPlan>> {
+    macro_rules! offer {
+        ($c:expr) => {{
+            let c: Vec<SPlan> = $c;
+            if accept(&c) {
+                return Some(c);
+            }
+        }};
+    }
+    // history: the last plan alone, then earlier plans in halving chunks, then one by one
     if plans.len() > 1 {
-        out.push(vec![plans.last().unwrap().clone()]);
-        for i in 0..plans.len() - 1 {
-            let mut c = plans.to_vec();
-            c.remove(i);
-            out.push(c);
+        offer!(vec![plans.last().unwrap().clone()]);
+        let hist = plans.len() - 1;
+        let mut size = hist / 2;
+        while size >= 2 {
+            let mut start = 0;
+            while start + size <= hist {
+                let mut c = plans.to_vec();
+                c.drain(start..start + size);
+                offer!(c);
+                start += size;
+            }
+            size /= 2;
+        }
+        if hist <= 64 {
+            for i in 0..hist {
+                let mut c = plans.to_vec();
+                c.remove(i);
+                offer!(c);
+            }
         }
     }
-    for pi in 0..plans.len() {
+    // shrink plans, the violating (last) one first; with a long history only the last few
+    let lo = plans.len().saturating_sub(4);
+    for pi in (lo..plans.len()).rev() {
         let p = &plans[pi];
-        let put = |q: SPlan, out: &mut Vec<Vec<SPlan>>| {
-            if q.threads.iter().any(|t| !t.is_empty()) {
-                let mut c = plans.to_vec();
-                c[pi] = q;
-                out.push(c);
-            }
-        };
+        macro_rules! put {
+            ($q:expr) => {{
+                let q: SPlan = $q;
+                if q.threads.iter().any(|t| !t.is_empty()) {
+                    let mut c = plans.to_vec();
+                    c[pi] = q;
+                    offer!(c);
+                }
+            }};
+        }
         if p.threads.len() > 1 {
             for t in 0..p.threads.len() {
                 let mut q = p.clone();
                 q.threads.remove(t);
-                put(q, &mut out);
+                put!(q);
             }
         }
         for t in 0..p.threads.len() {
@@ -278,7 +307,7 @@ fn reductions(plans: &[SPlan]) -> Vec<Vec<SPlan>> {
                 while start + size <= len {
                     let mut q = p.clone();
                     q.threads[t].drain(start..start + size);
-                    put(q, &mut out);
+                    put!(q);
                     start += size;
                 }
                 size /= 2;
@@ -286,7 +315,7 @@ fn reductions(plans: &[SPlan]) -> Vec<Vec<SPlan>> {
             for o in 0..len {
                 let mut q = p.clone();
                 q.threads[t].remove(o);
-                put(q, &mut out);
+                put!(q);
             }
         }
         for t in 0..p.threads.len() {
@@ -294,49 +323,49 @@ fn reductions(plans: &[SPlan]) -> Vec<Vec<SPlan>> {
                 for x in simpler_op(&p.threads[t][o]) {
                     let mut q = p.clone();
                     q.threads[t][o] = x;
-                    put(q, &mut out);
+                    put!(q);
                 }
             }
         }
         if p.alloc_seams {
             let mut q = p.clone();
             q.alloc_seams = false;
-            put(q, &mut out);
+            put!(q);
         }
         if p.sched.iter().any(|&b| b != 0) {
             let mut q = p.clone();
             q.sched = vec![0];
-            put(q, &mut out);
-            for k in 0..p.sched.len() {
+            put!(q);
+            for k in 0..p.sched.len().min(64) {
                 if p.sched[k] != 0 {
                     let mut q = p.clone();
                     q.sched[k] = 0;
-                    put(q, &mut out);
+                    put!(q);
                 }
             }
         }
     }
-    out
+    None
 }
 
 fn minimise(mut plans: Vec<SPlan>, kind: &str) -> (Vec<SPlan>, u64) {
     let started = Instant::now();
     let budget = std::time::Duration::from_secs(
-        std::env::var("VERIF_MINIMISE_SECS").ok().and_then(|s| s.parse().ok()).unwrap_or(90),
+        std::env::var("VERIF_MINIMISE_SECS").ok().and_then(|s| s.parse().ok()).unwrap_or(60),
     );
     let mut tried = 0u64;
-    'outer: loop {
-        for cand in reductions(&plans) {
+    loop {
+        let mut accept = |cand: &[SPlan]| {
             if started.elapsed() > budget || tried >= 3000 {
-                break 'outer;
+                return false;
             }
             tried += 1;
-            if fails_with(&cand, kind) {
-                plans = cand;
-                continue 'outer;
-            }
+            fails_with(cand, kind)
+        };
+        match reduce_once(&plans, &mut accept) {
+            Some(smaller) => plans = smaller,
+            None => break,
         }
-        break;
     }
     (plans, tried)
 }
